@@ -188,9 +188,13 @@ def h_error_reply(sit):
     else:
         p.establish()
         me, E, peer = p.b, p.B, p.a
-        exch, mid = {'empty_create_child': 36, 'empty_unknown_exchange': eng.sym_int('exchange', 38, 255)}[sit], peer.my_msg_id
+        exch, mid = {'empty_create_child': 36, 'empty_unknown_exchange': eng.sym_int('exchange', 38, 255), 'ike_sa_init_typed': 37}[sit], peer.my_msg_id
     req = m.Message(peer.spi_i, peer.spi_r, 2, 0, exch, False, False, True, mid, [], [], crypto=peer.my_crypto)
-    ret = E.call(me.process_message, req.to_bytes())
+    data = req.to_bytes()
+    if sit == 'ike_sa_init_typed':
+        # an authentic PROTECTED request whose header says IKE_SA_INIT (exchange type 34), on an IKE_SA that has keys
+        data = world.restamp(data, peer.my_crypto, exchange=34)
+    ret = E.call(me.process_message, data)
     if ret is None:
         return ['error_reply', 'silent']
     d = core.SymBytes.lift(ret)
@@ -271,9 +275,9 @@ def build_instances(tier):
     for integ_id in (2, 12, 14):
         for k in ((1, 16) if tier == 'quick' else (1, 2, 4, 8, 15, 16, 17, 32)):
             inst.append(Instance(f'extended by {k} octets integ={integ_id}', h_extend, (integ_id, k), must_reach=[('rejected', lambda o: o == ['extend', 'rejected'])]))
-    for sit in ('empty_ike_auth', 'empty_create_child'):
+    for sit in ('empty_ike_auth', 'empty_create_child', 'ike_sa_init_typed'):
         inst.append(Instance(f'error response to {sit}', h_error_reply, (sit,), native=common.native_of(h_error_reply),
-                             must_reach=[('protected', lambda o: o[:2] == ['error_reply', 'protected'])]))
+                             must_reach=[('protected', lambda o: o[:2] == ['error_reply', 'protected'])] if sit != 'ike_sa_init_typed' else []))
     for who in ('A', 'B'):
         for kind in ('request', 'response'):
             inst.append(Instance(f'emitted {kind} of {who} with any exchange type', h_emit, (who, kind),
